@@ -342,6 +342,32 @@ def check_C17(tier):
                            "acknowledgement carrying the byte count iff the window is reached)")
 
 
+# ------------------------------------------------------------------------------------------------
+# clock
+
+def check_C20(tier):
+    out = Outcome("C20", tier, "model_checking")
+    wd = vlib.workdir("C20")
+    r = vlib.model_check("MC_Clock.tla", "MC_Clock.cfg", wd)
+    out.add_s1(r, "MC_Clock (limb arithmetic refines flat arithmetic modulo Base^2; clock laws; Base = 16, all 65536 pairs)")
+    a = vlib.apalache("ClockFlatApa.tla", wd, ["--cinit=CInit", "--init=Init", "--inv=Inv", "--length=0"])
+    out.cov["apalache"] = {"result": "Inv (AddSubInverse, ExactModulo, EqualIff, Antisymmetric, OrderOfSum, AgreesWithLater, "
+                           "Antipodal) holds for ALL (a, d) in [0, 2^32)^2 for the transcription of time.rs", "wall_s": round(a["wall"], 1)}
+    vlib.build_harness()
+    path = os.path.join(wd, "clock.ndjson")
+    p = vlib.harness(["clock", "--tier", tier, "--seed", vlib.seed(), "--out", path])
+    info = vlib.last_json(p.stdout)
+    r = vlib.validate_trace("Trace_Clock.tla", path, wd, {"Base": 65536})
+    out.add_trace(r, runs=info.get("runs", 0))
+    out.verdicts(r)
+    sample_events(out, path, ("Clk",), n=2)
+    out.assumptions = ["ClockFlat!Impl* is a faithful transcription of time.rs (bound to the code by the trace check on boundary pairs)",
+                       "Apalache/Z3; TLC; harness logger"]
+    return out.finish(rule="boundary product {0,1,2,2^24-1,2^24,2^31-2..2^31+2,2^32-2,2^32-1,...}^2 taken both as (a,d) and as "
+                           "(a,a+d), plus seeded random pairs biased to distances 2^31-2..2^31+1; every operator on the real "
+                           "RtmpTimestamp (timestamp/timestamp, timestamp/u32, u32/timestamp) recomputed in TLA+")
+
+
 def replay(path):
     with open(path) as f:
         body = json.load(f)
